@@ -131,7 +131,7 @@ def h_genemetrics(ctx, chroms, first, min_probes, skip_low, sex=(False, True), z
     try:
         table = reports.do_genemetrics(cna, None, thr, min_probes, skip_low, hapx, female)
     except Exception as exc:
-        ctx.claim(False, f"do_genemetrics raised {type(exc).__name__}")
+        claim_raised(ctx, "do_genemetrics", exc)
         return
     got = {r.gene: r for r in table.itertuples(index=False)}
     ctx.claim(len(got) == len(table), "one row per gene")
@@ -200,7 +200,7 @@ def h_genemetrics_seg(ctx, chroms, first):
     try:
         table = reports.do_genemetrics(cna, segs, thr, 1, False, False, True)
     except Exception as exc:
-        ctx.claim(False, f"do_genemetrics(segments) raised {type(exc).__name__}")
+        claim_raised(ctx, "do_genemetrics(segments)", exc)
         return
     rows = list(table.itertuples(index=False))
     ctx.observe("rows", [[r.gene, r.start, r.end] for r in rows])
@@ -233,7 +233,7 @@ def h_squash(ctx, chroms, first):
     try:
         out = cna.squash_genes(summary_func=lambda v: Sum(list(v)) / len(v))
     except Exception as exc:
-        ctx.claim(False, f"squash_genes raised {type(exc).__name__}")
+        claim_raised(ctx, "squash_genes", exc)
         return
     rows = list(out.data.itertuples(index=False))
     ctx.observe("rows", [[r.gene, r.start, r.end] for r in rows])
@@ -262,7 +262,7 @@ def h_breaks(ctx, chroms, first, min_probes):
     try:
         table = reports.do_breaks(cna, segs, min_probes)
     except Exception as exc:
-        ctx.claim(False, f"do_breaks raised {type(exc).__name__}")
+        claim_raised(ctx, "do_breaks", exc)
         return
     got = {r.gene: r for r in table.itertuples(index=False)}
     ctx.observe("genes", sorted(got))
